@@ -550,14 +550,22 @@ def _tuple_out(model: Model, P: RuleResult):
     else:
         P.bad(w[0] if w else q, (w[0] if w else q).node, "the tuple wrapper must return packer.flatten(fcn(x, *params))")
     okr = False
-    for s in ast.walk(q.node):
-        if isinstance(s, ast.If) and w and any(n is w[0].node for n in ast.walk(s)):
-            ap = [x for x in s.body if isinstance(x, ast.Assign) and isinstance(x.value, ast.Call) and ast.unparse(x.value.func).endswith(".apply")]
-            rt = [x for x in s.body if isinstance(x, ast.Return)]
-            if ap and rt:
-                rv = rt[-1].value
-                okr = (isinstance(ap[0].value.args[0], ast.Name) and ap[0].value.args[0].id == w[0].name and isinstance(rv, ast.Call)
-                       and ast.unparse(rv.func) == pk + ".pack" and ast.unparse(rv.args[0]) == ast.unparse(ap[0].targets[0]))
+    if w:
+        # the block that defines the wrapper (an arm of an if, or the function body after a guard clause)
+        for blk_owner in ast.walk(q.node):
+            for fld in ("body", "orelse"):
+                blk = getattr(blk_owner, fld, None)
+                if isinstance(blk, list) and any(x is w[0].node for x in blk):
+                    ap = [x for x in blk if isinstance(x, ast.Assign) and isinstance(x.value, ast.Call) and ast.unparse(x.value.func).endswith(".apply")]
+                    rt = [x for x in blk if isinstance(x, ast.Return)]
+                    if ap and rt:
+                        rv = rt[-1].value
+                        okr = (isinstance(ap[0].value.args[0], ast.Name) and ap[0].value.args[0].id == w[0].name and isinstance(rv, ast.Call)
+                               and ast.unparse(rv.func) == pk + ".pack" and ast.unparse(rv.args[0]) == ast.unparse(ap[0].targets[0]))
+                    elif rt and isinstance(rt[-1].value, ast.Call) and ast.unparse(rt[-1].value.func) == pk + ".pack" and rt[-1].value.args:
+                        inner_call = rt[-1].value.args[0]
+                        okr = isinstance(inner_call, ast.Call) and ast.unparse(inner_call.func).endswith(".apply") and inner_call.args \
+                            and isinstance(inner_call.args[0], ast.Name) and inner_call.args[0].id == w[0].name
     if okr:
         P.ok(q.fq, "the flat integral of the wrapped integrand is unflattened with the same packer (component-wise integration)")
     else:
